@@ -8,11 +8,15 @@
   never arises; (2) the outcome does not depend on the amount of fuel once it suffices (fuel
   monotonicity), so "terminates" is well-defined; (3) the repetition loop needs at most |s| + 2 rounds
   whatever the element (nullable or not) - see `rep_loop_bounded`.
-  NOT proved (stated in DESIGN.md): existence of sufficient fuel for every well-formed grammar
-  (termination of the recursion through rules); the polynomial work bound.
+  (4) `terminates`: for every grammar with a well-formedness certificate (`WfCert`: no left recursion,
+  also through nullable prefixes and exclusions; min ≤ max) the engine answers for every source and
+  offset within the explicit fuel `fuelFor`, also when repetitions range over nullable elements.
+  NOT proved (stated in DESIGN.md): the polynomial WORK bound (fuel bounds the recursion DEPTH; the real
+  code is exponential on some grammars, known finding F14).
 -/
 import Abnf.FlagLemmas
 import Abnf.Mono
+import Abnf.Wf
 namespace Abnf.C12
 
 /-- (1) In a closed grammar (every referenced or excluded rule has a definition) parsing never raises
@@ -52,6 +56,26 @@ theorem at_end_of_input (s : Src) (lo hi : Nat) (v : List Nat) (cs : Bool) (hv :
     cases v with
     | nil => exact absurd rfl hv
     | cons c v => cases cs <;> simp
+
+/-- (4) **Parsing terminates.**  For every well-formed grammar, every source (any list of code points: NUL,
+astral characters and lone surrogates are just numbers), every offset `0..len` and every rule, the engine
+answers - a match list, ParseError or GrammarError - within the recursion depth `fuelFor`, and more fuel
+never changes the answer. -/
+theorem terminates {G : Grammar} {N : Nat → Bool} {rank : Nat → Nat} {K D : Nat} (hw : WfCert G N rank K D)
+    (s : Src) (r i : Nat) (hi : i ≤ s.length) (f : Nat) (hf : fuelFor K D (s.length - i) K 0 ≤ f) :
+    lparse G f s (.ref r) i ≠ .oof ∧
+    lparse G f s (.ref r) i = lparse G (fuelFor K D (s.length - i) K 0) s (.ref r) i := by
+  have h0 : lparse G (fuelFor K D (s.length - i) K 0) s (.ref r) i ≠ .oof :=
+    lparse_total hw _ s (.ref r) i K hi BoundsOk.ref (fun r' _ => hw.rank_lt r') (Nat.le_refl _) (by simp [depth])
+      (by simp [depth])
+  have h1 := lparse_fuel_irrelevant G hf rfl h0
+  exact ⟨by rw [h1]; exact h0, h1⟩
+
+/-- the same for every expression of the grammar, with the rank bound of its own left references -/
+theorem terminates_expr {G : Grammar} {N : Nat → Bool} {rank : Nat → Nat} {K D : Nat} (hw : WfCert G N rank K D)
+    (s : Src) (e : Expr) (i : Nat) (hi : i ≤ s.length) (hb : BoundsOk e) (hd : depth e ≤ D) :
+    lparse G (fuelFor K D (s.length - i) K (depth e)) s e i ≠ .oof :=
+  lparse_total hw _ s e i K hi hb (fun r' _ => hw.rank_lt r') (Nat.le_refl _) hd (Nat.le_refl _)
 
 example :
     let G : Grammar := #[⟨"r", some (.rep 0 0 none (.rep 1 0 none (.lit [] false))), none⟩]
